@@ -125,6 +125,10 @@ def run_cfg(ctx, p, cfg):
             a = c.arg(1)
             if any(x[0] == "as" and x[2] == "Err" and strip(x[1])[0] == "call" and strip(x[1])[1] == ds.callee for x in walk(a)):
                 okp = True
+            # `.filter_map(|..| deliver(..).err())` collected into the list: the Some payload of Result::err(deliver(..))
+            if any(x[0] == "as" and x[2] == "Some" and strip(x[1])[0] == "call" and strip(x[1])[1] == "core::result::Result::<T, E>::err"
+                   and strip(strip(x[1])[2][0])[0] == "call" and strip(strip(x[1])[2][0])[1] == ds.callee for x in walk(a)):
+                okp = True
         r.require(okp, "err-recorded", fn=nl, detail="the Err payload of the appender call is pushed to the error list")
         # the errors are returned as Err(list) when non-empty
         rets = q.ret_assignments(nl)
@@ -138,7 +142,7 @@ def run_cfg(ctx, p, cfg):
 
     with ctx.rule("F4", "once per error", cfg) as r:
         ro = anchors.routing(p)
-        ll = p.fn(anchors.LOG_LOG)
+        ll = ro["log_log"]
         ind = [c for c in ll.calls("core::ops::function::Fn::call")] + ll.indirect_calls()
         hs = [c for c in ind if any(x[0] == "field" and x[2] == _handler_field(p) for x in walk(c.arg(0)))]
         r.require(len(hs) == 1, "single-handler-site", fn=ll, detail="error handler call sites in Log::log: %d" % len(hs))
